@@ -7,6 +7,7 @@ mod alloc;
 mod util;
 mod fam_bloom;
 mod fam_hist;
+mod fam_conf;
 mod gen;
 mod model;
 
@@ -29,6 +30,7 @@ fn main() {
     let rep = match fam {
         "bloom" => fam_bloom::run(&mut rng, &tier, out),
         "hist" => fam_hist::run(&mut rng, &tier, out),
+        "conf" => fam_conf::run(&mut rng, &tier, out),
         _ => {
             eprintln!("unknown family {}", fam);
             std::process::exit(2);
